@@ -118,6 +118,10 @@ pub fn std_suffixes() -> Vec<Vec<u8>> {
         vec![0xff, 0xff, 0xff],
         vec![0x16, 0x03, 0x03, 0x00, 0x04, 0x00, 0x00, 0x00, 0x00],
         vec![0x00, 0x17, 0x00, 0x00],
+        // what usually follows: another record (application data, ChangeCipherSpec, a DTLS record)
+        vec![0x17, 0x03, 0x03, 0x00, 0x02, 0xaa, 0xbb],
+        vec![0x14, 0x03, 0x03, 0x00, 0x01, 0x01],
+        vec![0x16, 0xfe, 0xfd, 0x00, 0x01, 0, 0, 0, 0, 0, 0x05, 0x00, 0x01, 0x00],
     ]
 }
 
